@@ -906,15 +906,19 @@ package mocrelay
 //@   serves C16
 //@   trusted body verified under C04/C05 (retention); here only its result register is used
 //@   requires c != nil && event != nil
-//@   writes contents(c.evs), contents(c.deleted), eachkey(k, c.deleted, contents(c.deleted[k])), contents(c.evsIndex.idx), eachkey(k, c.evsIndex.idx, contents(c.evsIndex.idx[k])), ghost(lastadd, c), lock(c.mu)
+//@   writes contents(c.evs), contents(c.deleted), eachkey(k, c.deleted, contents(c.deleted[k])), contents(c.evsIndex.idx), eachkey(k, c.evsIndex.idx, contents(c.evsIndex.idx[k])), ghost(lastadd, c), ghost(addlog, c), lock(c.mu)
 //@   ensures added == g(lastadd, c)
+//@   promises all(k, eventCacheDeletedEventKey, has(c.deleted, k) ==> ((old(has(c.deleted, k)) && c.deleted[k] == old(c.deleted[k])) || fresh(c.deleted[k])))
+//@   promises all(k, eventCacheEvsIndexKey, has(c.evsIndex.idx, k) ==> ((old(has(c.evsIndex.idx, k)) && c.evsIndex.idx[k] == old(c.evsIndex.idx[k])) || fresh(c.evsIndex.idx[k])))
+//@   promises len(g(addlog, c)) == len(old(g(addlog, c))) + 1 && g(addlog, c)[len(old(g(addlog, c)))] == event && forall(i, 0, len(old(g(addlog, c))), g(addlog, c)[i] == old(g(addlog, c))[i])
 
 //@ func EventCache.Find
 //@   serves C16
 //@   trusted body verified under C03 (query); here only its result register is used
 //@   requires c != nil
-//@   writes ghost(lastfind, c), lock(c.mu)
+//@   writes ghost(lastfind, c), ghost(lastfindfilters, c), lock(c.mu)
 //@   ensures result == g(lastfind, c)
+//@   promises g(lastfindfilters, c) == filters
 
 //@ func simpleCacheHandler.ServeNostrClientMsg
 //@   serves C16
@@ -1157,3 +1161,17 @@ package mocrelay
 //@   ensures[C20] (!old(isUpgrade(r)) && old(wantsNIP11(r)) && mux.NIP11 == nil) ==> (g(wtext, refof(w)) == "{}" && g(routed, r) == old(g(routed, r)))
 //@   ensures[C20] (!old(isUpgrade(r)) && !old(wantsNIP11(r)) && mux.Default != nil) ==> g(routed, r) == 3
 //@   ensures[C20] (!old(isUpgrade(r)) && !old(wantsNIP11(r)) && mux.Default == nil) ==> (g(wtext, refof(w)) == "Hello Mocrelay (｀･ω･´)！" && g(routed, r) == old(g(routed, r)))
+
+//@ func simpleCacheHandler.Dump
+//@   serves C16
+//@   requires h != nil && h.c != nil
+//@   ensures[C16] result == nil ==> (len(g(lastfindfilters, h.c)) == 1 && isMatchAll(g(lastfindfilters, h.c)[0]) && g(iowritten, refof(w)) == jsonOf(box(g(lastfind, h.c), any)))
+
+//@ func simpleCacheHandler.Restore
+//@   serves C16
+//@   requires h != nil && h.c != nil
+//@   ensures[C16] result == nil ==> (jsonok([]*Event, readAllOf(r)) && len(g(addlog, h.c)) == len(old(g(addlog, h.c))) + len(jsondecoded([]*Event, readAllOf(r))))
+//@   ensures[C16] result == nil ==> forall(i, 0, len(jsondecoded([]*Event, readAllOf(r))), g(addlog, h.c)[len(old(g(addlog, h.c))) + i] == jsondecoded([]*Event, readAllOf(r))[i])
+//@   loop 1 as i
+//@     invariant len(g(addlog, h.c)) == len(old(g(addlog, h.c))) + i
+//@     invariant forall(j, 0, i, g(addlog, h.c)[len(old(g(addlog, h.c))) + j] == events[j]) && forall(j, 0, len(old(g(addlog, h.c))), g(addlog, h.c)[j] == old(g(addlog, h.c))[j])
